@@ -26,6 +26,8 @@ FunV(name, params, body) == MacroDef(name, TRUE, params, TRUE, body)
 Case(fam, id, defs, inv, want) == [fam |-> fam, id |-> id, defs |-> defs, inv |-> Src(inv), want |-> want]
 
 JoinSp(ss) == FoldLeft(LAMBDA a, i : IF a = "" THEN ss[i] ELSE a \o " " \o ss[i], "", [i \in 1..Len(ss) |-> i])
+(* text s followed by token b: without white space when the whole still lexes to the tokens of s and then b *)
+AdjS(s, b) == IF Lex(s \o b) = Append(Lex(s), b) THEN s \o b ELSE s \o " " \o b
 (* a, b written next to each other: without white space when that lexes back to <<a, b>> *)
 Adj(a, b) == IF Lex(a \o b) = <<a, b>> THEN a \o b ELSE a \o " " \o b
 
@@ -255,7 +257,7 @@ NF6 == Len(F6Invs)
 
 (* ---- P: every ordered pair of the C19 alphabet in every adjacency context *)
 NS == Len(Sigma)
-PCtx == 9
+PCtx == 12
 (* a newline between two tokens of one argument; a `#` first on a line inside an invocation would be a
    directive there (6.10.3p11: undefined), so that one is written after a blank instead *)
 NL(b) == IF b = "#" THEN " " ELSE "\n"
@@ -273,28 +275,33 @@ PCase(i) ==
        [] c = 5 -> Case("P", i, <<ID>>, "ID(" \o a \o ")ID(" \o b \o ")", "")               \* end of one expansion / start of the next
        [] c = 6 -> Case("P", i, <<ID>>, "ID(" \o a \o ")" \o b, "")
        [] c = 7 -> Case("P", i, <<ID>>, "ID(" \o a \o NL(b) \o b \o ")", "")              \* a, b consecutive tokens of one argument, newline between
-       [] OTHER -> Case("P", i, <<ID, Fun("W", <<"y">>, "[ID(y)]")>>, "W(" \o a \o NL(b) \o b \o ")", "")   \* ... passed on through another macro's replacement
+       [] c = 8 -> Case("P", i, <<ID, Fun("W", <<"y">>, "[ID(y)]")>>, "W(" \o a \o NL(b) \o b \o ")", "")   \* ... passed on through another macro's replacement
+       \* an expansion to NOTHING between two SOURCE tokens, nothing written between them where that lexes:
+       [] c = 9 -> Case("P", i, <<Obj("E", "")>>, AdjS(Adj(a, "E"), b), "")                            \* aEb, object-like
+       [] c = 10 -> Case("P", i, <<Fun("N", <<"x">>, "")>>, AdjS(Adj(a, "N") \o "(q)", b), "")           \* aN(q)b, function-like
+       [] OTHER -> Case("P", i, <<Fun("N", <<>>, ""), Obj("E", "")>>, AdjS(Adj(a, "N") \o "()N()", b) \o "\nE" \o Adj(a, "E"), "")   \* chain of empty expansions; empty expansion first / last on a line
 NP == NS * NS * PCtx
 
 NT == Len(Tri)
 PTCase(i) ==
   LET j == i - 1
-      k == j % 3
-      c == Tri[((j \div 3) % NT) + 1]
-      b == Tri[((j \div (3 * NT)) % NT) + 1]
-      a == Tri[(j \div (3 * NT * NT)) + 1]
-  IN IF k = 2 THEN Case("PT", i, <<Fun("ID", <<"x">>, "x")>>, "ID(" \o a \o NL(b) \o b \o NL(c) \o c \o ")", "")
+      k == j % 4
+      c == Tri[((j \div 4) % NT) + 1]
+      b == Tri[((j \div (4 * NT)) % NT) + 1]
+      a == Tri[(j \div (4 * NT * NT)) + 1]
+  IN IF k = 3 THEN Case("PT", i, <<Obj("E", ""), Fun("N", <<>>, "")>>, AdjS(AdjS(AdjS(Adj(a, "E"), b), "N") \o "()", c), "")   \* aEbN()c
+     ELSE IF k = 2 THEN Case("PT", i, <<Fun("ID", <<"x">>, "x")>>, "ID(" \o a \o NL(b) \o b \o NL(c) \o c \o ")", "")
      ELSE IF k = 0 THEN Case("PT", i, <<Fun("ID", <<"x">>, "x")>>, "ID(" \o a \o ")ID(" \o b \o ")ID(" \o c \o ")", "")
      ELSE Case("PT", i, <<Obj("E", "")>>, Adj(a, "E") \o " " \o Adj(b, "E") \o " " \o c, "")
-NPT == NT * NT * NT * 3
+NPT == NT * NT * NT * 4
 
 (* ---- PS: SEQUENCES of two adjacency cases in one file (each case is replayed in a process of its own, so
    nothing but the first pair precedes the second): every ordered pair of (a1,b1),(a2,b2) over
    representatives of the classes the separation decision depends on — last character of a, whether a is
    a pp-number, first character of b.  A printer that carries state from one decision to the next
    (a cache keyed by less than the decision depends on) shows here and nowhere in P/PT. *)
-PSA == <<"e", "0xe", "E", "0xE", ".", "1.", "x", "1">>
-PSB == <<"+", "-", "x", "1", ".", "=">>
+PSA == <<"e", "0xe", "E", "0xE", ".", "1.", "x", "carr@">>
+PSB == <<"+", "-", "x", ".", "@t@">>
 PSCase(i) == LET j == i - 1
                  b2 == PSB[(j % Len(PSB)) + 1]
                  a2 == PSA[((j \div Len(PSB)) % Len(PSA)) + 1]
@@ -303,12 +310,51 @@ PSCase(i) == LET j == i - 1
              IN Case("PS", i, <<Fun("ID", <<"x">>, "x")>>, "ID(" \o a1 \o ")" \o b1 \o " ; ID(" \o a2 \o ")" \o b2, "")
 NPS == Len(PSA) * Len(PSB) * Len(PSA) * Len(PSB)
 
+(* ---- F11: the result of ## used further: a pasted pp-number / identifier of every "last character" class
+   (hex digits ending in e E, exponent letters e E p P, `.`, digit, letter) followed or preceded by more
+   tokens and then stringized through a second macro level, compared, or pasted again *)
+F11L == <<"0x", "1", "0xA", "1.", "x", ".">>
+F11R == <<"FE", "e", "E", "p", "P", "5", ".", "e5", "z">>
+F11Shapes == 4
+F11Defs == <<Fun("CAT", <<"a", "b">>, "a##b"), Fun("S", <<"x">>, "#x"), Fun("XS", <<"x">>, "S(x)"), Fun("XCAT", <<"a", "b">>, "CAT(a,b)")>>
+F11Case(i) == LET j == i - 1
+                  k == j % F11Shapes
+                  r == F11R[((j \div F11Shapes) % Len(F11R)) + 1]
+                  l == F11L[(j \div (F11Shapes * Len(F11R))) + 1]
+                  c == "CAT(" \o l \o "," \o r \o ")"
+              IN Case("F11", i, F11Defs,
+                      CASE k = 0 -> "XS(" \o c \o " z)"
+                        [] k = 1 -> "XS(w " \o c \o ") " \o c \o " + 1"
+                        [] k = 2 -> "XS(" \o c \o " + " \o c \o ") ;"
+                        [] OTHER -> "XS(XCAT(" \o c \o ",1) z)", "")
+NF11 == Len(F11L) * Len(F11R) * F11Shapes
+
+(* ---- F12: a token made by ## is a NEW token: it carries the hide set of the expansion it is made in
+   (Prosser: the intersection of its operands' hide sets, united with that of the expansion), not the hide
+   set of its left operand — and never none.  The left operand comes out of an earlier expansion and the
+   paste re-creates (a) the name of the macro it came from, (b) the name of another macro, (c) the name
+   of the macro being expanded (termination). *)
+F12Defs == <<Fun("CAT", <<"a", "b">>, "a##b"), Fun("XCAT", <<"a", "b">>, "CAT(a,b)"),
+             Obj("N1", "N"), Fun("NEXT", <<"n">>, "XCAT(n,1)"), Obj("AB", "A"), Fun("F", <<"x">>, "CAT(x,B)"),
+             Obj("X1", "Y"), Obj("Y2", "ok"), Fun("NEXT2", <<"n">>, "XCAT(n,2)"),
+             Fun("GLUE", <<"a", "b">>, "a##b"), Obj("counter", "GLUE(coun, ter)"),
+             Fun("checked_add", <<"a", "b">>, "checked_##add((a),(b))"), Fun("SELF", <<"x">>, "CAT(SE,LF)(x)"),
+             Obj("OBJ", "OB ## J + 1")>>
+F12Invs == <<"NEXT(N1)", "F(AB)", "NEXT2(X1)", "counter", "checked_add(1,2)", "SELF(1)", "XCAT(N1,)", "CAT(N,1)",
+             "NEXT(NEXT(N1))", "counter counter", "CAT(coun,ter)", "OBJ", "F(AB) F(AB)", "XCAT(A,B)", "NEXT(N)",
+             "checked_add(checked_add(1,2),3)", "SELF(SELF(1))", "GLUE(coun,ter) GLUE(N,1)">>
+F12Case(i) == Case("F12", i, F12Defs, F12Invs[i], "")
+NF12 == Len(F12Invs)
+
 (* FS: the small families that are always run completely (F5, F9, F10), enumerated by one TLC run *)
-NFS == NF5 + NF9 + NF10
-FSCase(i) == IF i <= NF5 THEN F5Case(i) ELSE IF i <= NF5 + NF9 THEN F9Case(i - NF5) ELSE F10Case(i - NF5 - NF9)
+NFS == NF5 + NF9 + NF10 + NF11 + NF12
+FSCase(i) == IF i <= NF5 THEN F5Case(i) ELSE IF i <= NF5 + NF9 THEN F9Case(i - NF5)
+             ELSE IF i <= NF5 + NF9 + NF10 THEN F10Case(i - NF5 - NF9)
+             ELSE IF i <= NF5 + NF9 + NF10 + NF11 THEN F11Case(i - NF5 - NF9 - NF10)
+             ELSE F12Case(i - NF5 - NF9 - NF10 - NF11)
 
 NCasesOf(f) == CASE f = "F1" -> NF1 [] f = "F2" -> NF2 [] f = "F3" -> NF3 [] f = "F4" -> NF4
-                 [] f = "F5" -> NF5 [] f = "F6" -> NF6 [] f = "F7" -> NF7 [] f = "F8" -> NF8 [] f = "F9" -> NF9 [] f = "F10" -> NF10 [] f = "P" -> NP [] f = "PT" -> NPT [] f = "PS" -> NPS [] f = "FS" -> NFS
+                 [] f = "F5" -> NF5 [] f = "F6" -> NF6 [] f = "F7" -> NF7 [] f = "F8" -> NF8 [] f = "F9" -> NF9 [] f = "F10" -> NF10 [] f = "F11" -> NF11 [] f = "F12" -> NF12 [] f = "P" -> NP [] f = "PT" -> NPT [] f = "PS" -> NPS [] f = "FS" -> NFS
 CaseAt(f, i) == CASE f = "F1" -> F1Case(i) [] f = "F2" -> F2Case(i) [] f = "F3" -> F3Case(i) [] f = "F4" -> F4Case(i)
-                  [] f = "F5" -> F5Case(i) [] f = "F6" -> F6Case(i) [] f = "F7" -> F7Case(i) [] f = "F8" -> F8Case(i) [] f = "F9" -> F9Case(i) [] f = "F10" -> F10Case(i) [] f = "P" -> PCase(i) [] f = "PT" -> PTCase(i) [] f = "PS" -> PSCase(i) [] f = "FS" -> FSCase(i)
+                  [] f = "F5" -> F5Case(i) [] f = "F6" -> F6Case(i) [] f = "F7" -> F7Case(i) [] f = "F8" -> F8Case(i) [] f = "F9" -> F9Case(i) [] f = "F10" -> F10Case(i) [] f = "F11" -> F11Case(i) [] f = "F12" -> F12Case(i) [] f = "P" -> PCase(i) [] f = "PT" -> PTCase(i) [] f = "PS" -> PSCase(i) [] f = "FS" -> FSCase(i)
 =============================================================================
